@@ -153,7 +153,8 @@ def tlc(wd, module, cfg=None, workers=None, env=None, timeout=1200, extra=(), xm
     """Run TLC on wd/module.tla. Returns TlcResult. Never raises on model failure."""
     res = TlcResult()
     md = os.path.join(wd, 'md_%s_%d_%d' % (tag or module, os.getpid(), random.randrange(1 << 30)))
-    cmd = ['java', '-XX:+UseParallelGC', '-Xss64m', '-Xmx' + xmx, '-cp', TLAJAR, 'tlc2.TLC', '-metadir', md, '-nowarning',
+    jt = os.path.join(wd, 'jtmp'); os.makedirs(jt, exist_ok=True)
+    cmd = ['java', '-XX:+UseParallelGC', '-Xss64m', '-Djava.io.tmpdir=' + jt, '-Xmx' + xmx, '-cp', TLAJAR, 'tlc2.TLC', '-metadir', md, '-nowarning',
            '-workers', str(workers or NCPU)]
     if cfg:
         cmd += ['-config', cfg]
@@ -228,7 +229,8 @@ def apalache(wd, module, inv, cinit='ConstInit', length=0, timeout=300, init=Non
         cmd.append('--next=' + next_)
     cmd.append(module + '.tla')
     t0 = time.time()
-    r = sh(cmd, timeout=timeout, cwd=wd, env={'JVM_ARGS': '-Xmx6g'})
+    jt = os.path.join(wd, 'jtmp'); os.makedirs(jt, exist_ok=True)
+    r = sh(cmd, timeout=timeout, cwd=wd, env={'JVM_ARGS': '-Xmx6g -Djava.io.tmpdir=' + jt})
     res.wall = time.time() - t0
     res.out = r.stdout + r.stderr
     if r.returncode == 0 and 'The outcome is: NoError' in res.out:
